@@ -57,6 +57,86 @@ pub fn dump_green(g: &GreenNode, r: &dyn Resolver) -> String {
     out
 }
 
+/// the children of a green node can be read by many routes (the iterator overrides `nth`, `last`, `fold`, `count`,
+/// `next_back`, `nth_back`, `rfold`, `len`): all of them must read the same children in the same order as `next`
+pub fn green_read_routes(g: &GreenNode) -> Option<String> {
+    fn id(e: &NodeOrToken<&GreenNode, &cstree::green::GreenToken>) -> (bool, usize) {
+        match e {
+            NodeOrToken::Node(n) => (true, *n as *const GreenNode as usize),
+            NodeOrToken::Token(t) => (false, *t as *const cstree::green::GreenToken as usize),
+        }
+    }
+    let mut fwd = vec![];
+    let mut it = g.children();
+    while let Some(e) = it.next() {
+        fwd.push(id(&e));
+    }
+    let n = fwd.len();
+    let mut rev: Vec<(bool, usize)> = fwd.clone();
+    rev.reverse();
+    let mut back = vec![];
+    let mut it = g.children();
+    while let Some(e) = it.next_back() {
+        back.push(id(&e));
+    }
+    if back != rev {
+        return Some("next_back reads other children than next".into());
+    }
+    let mut v = vec![];
+    g.children().for_each(|e| v.push(id(&e)));
+    if v != fwd {
+        return Some("fold/for_each reads other children than next".into());
+    }
+    let mut v = vec![];
+    g.children().rev().for_each(|e| v.push(id(&e)));
+    if v != rev {
+        return Some("rfold (rev().for_each) reads other children than next_back".into());
+    }
+    let v: Vec<(bool, usize)> = g.children().rfold(vec![], |mut a, e| { a.push(id(&e)); a });
+    if v != rev {
+        return Some("rfold reads other children than next_back".into());
+    }
+    if g.children().len() != n || g.children().count() != n || g.children().size_hint() != (n, Some(n)) {
+        return Some(format!("len/count/size_hint of the children differ from the {} children read", n));
+    }
+    if g.children().last().map(|e| id(&e)) != fwd.last().cloned() {
+        return Some("last() is not the last child".into());
+    }
+    let ks: Vec<usize> = (0..=n.min(6)).chain(n.saturating_sub(2)..=n).collect();
+    for k in ks {
+        let mut it = g.children();
+        if it.nth(k).map(|e| id(&e)) != fwd.get(k).cloned() {
+            return Some(format!("nth({}) is not child {}", k, k));
+        }
+        if it.len() != n.saturating_sub(k + 1) || it.next().map(|e| id(&e)) != fwd.get(k + 1).cloned() {
+            return Some(format!("after nth({}) the iterator is not at child {}", k, k + 1));
+        }
+        let mut it = g.children();
+        if it.nth_back(k).map(|e| id(&e)) != rev.get(k).cloned() {
+            return Some(format!("nth_back({}) is not child {} from the end", k, k));
+        }
+        if it.len() != n.saturating_sub(k + 1) || it.next_back().map(|e| id(&e)) != rev.get(k + 1).cloned() {
+            return Some(format!("after nth_back({}) the iterator is not at child {} from the end", k, k + 1));
+        }
+        // from both ends
+        let mut it = g.children();
+        let a = it.next().map(|e| id(&e));
+        let b = it.nth_back(k).map(|e| id(&e));
+        let want_b = if k + 1 < n { rev.get(k).cloned() } else { None };
+        if a != fwd.first().cloned() || b != want_b {
+            return Some(format!("next then nth_back({}) reads a wrong child", k));
+        }
+    }
+    for c in g.children() {
+        if let NodeOrToken::Node(c) = c {
+            if let Some(m) = green_read_routes(c) {
+                return Some(m);
+            }
+        }
+    }
+    None
+}
+
 fn green_text(g: &GreenNode, r: &dyn Resolver, out: &mut String) {
     for c in g.children() {
         match c {
@@ -741,6 +821,11 @@ impl Area for BuilderArea {
                                     cx.fail("C04", format!("earlier tree changed from {} to {}", d0, d));
                                 }
                                 cx.count("c04.redump");
+                                match catch(|| green_read_routes(&g)) {
+                                    Ok(None) => {}
+                                    Ok(Some(m)) => cx.fail("C01", format!("reading the finished tree: {}", m)),
+                                    Err(m) => cx.fail("C01", format!("reading the finished tree panicked: {}", m)),
+                                }
                                 d
                             }
                             "text" => {
@@ -751,6 +836,11 @@ impl Area for BuilderArea {
                                 let via_red = red.resolve_text(r).to_string();
                                 if via_red != got {
                                     cx.fail("C01", format!("red text {} != green text {}", hex(&via_red), hex(&got)));
+                                }
+                                match catch(|| green_read_routes(&g)) {
+                                    Ok(None) => {}
+                                    Ok(Some(m)) => cx.fail("C01", format!("reading the finished tree: {}", m)),
+                                    Err(m) => cx.fail("C01", format!("reading the finished tree panicked: {}", m)),
                                 }
                                 format!("{} {}", hex(&got), u32::from(g.text_len()))
                             }
